@@ -164,7 +164,7 @@ theorem values_of_resolve (p : Profile) (idx : Nat) :
           cases hf : Spec.sampleFrames p s with
           | none => simp [hv, hf] at h1
           | some fs => simp [hv, hf] at h1; simp [← h1]
-      simp [List.filterMap_cons, hv, ih rs0 h2]
+      simp [hv, ih rs0 h2]
 
 theorem stacks_ok {p : Profile} {idx : Nat} {ss : StackSet} (h : stacks p idx = .ok ss) :
     ∃ rs st total, Spec.resolve p idx = some rs ∧
@@ -178,5 +178,47 @@ theorem stacks_ok {p : Profile} {idx : Nat} {ss : StackSet} (h : stacks p idx = 
     obtain ⟨st, inv, hb⟩ := build_spec (computeTotal ((rs.zip p.samples).map fun x => (x.1.1, diffBase x.2))) rs
     rw [hb] at h
     exact ⟨rs, st, _, resolve_spec p idx rs hr, inv, by injection h with h; exact h.symm⟩
+
+theorem resolveOne_some {p : Profile} {idx : Nat} {s : Sample} {r : Int × List Frame}
+    (h : Spec.resolveOne p idx s = some r) :
+    s.values[idx]? = some r.1 ∧ Spec.sampleFrames p s = some r.2 := by
+  simp only [Spec.resolveOne] at h
+  cases hv : s.values[idx]? with
+  | none => simp [hv] at h
+  | some v =>
+    cases hf : Spec.sampleFrames p s with
+    | none => simp [hv, hf] at h
+    | some fs => simp [hv, hf] at h; simp [← h]
+
+theorem resolve_at {p : Profile} {idx : Nat} {rs : List (Int × List Frame)}
+    (h : Spec.resolve p idx = some rs) :
+    rs.length = p.samples.length ∧
+    ∀ i (hi : i < p.samples.length), ∃ r, rs[i]? = some r ∧
+      p.samples[i].values[idx]? = some r.1 ∧ Spec.sampleFrames p p.samples[i] = some r.2 := by
+  rw [Spec.resolve, optMap_eq_some_iff] at h
+  have hlen : rs.length = p.samples.length := by
+    have := congrArg List.length h
+    simpa using this.symm
+  refine ⟨hlen, ?_⟩
+  intro i hi
+  have hi' : i < rs.length := by omega
+  have := congrArg (fun l => l[i]?) h
+  simp only [List.getElem?_map, List.getElem?_eq_getElem hi, List.getElem?_eq_getElem hi',
+    Option.map_some, Option.some.injEq] at this
+  exact ⟨rs[i], List.getElem?_eq_getElem hi', resolveOne_some this⟩
+
+theorem result_source_get {total : Int} {st : St} {rs : List (Int × List Frame)} {i : Nat} {s : Source}
+    (h : (result total st rs).sources.elems[i]? = some s) :
+    ∃ s0, st.sources.elems[i]? = some s0 ∧
+      s = addP s0 (Spec.placesOf (rs.map (mkStack st.srcs)) i) := by
+  simp only [result, Slice.lit, List.getElem?_mapIdx, Option.map_eq_some_iff] at h
+  obtain ⟨s0, h0, rfl⟩ := h
+  exact ⟨s0, h0, rfl⟩
+
+theorem result_source_of {total : Int} {st : St} {rs : List (Int × List Frame)} {i : Nat} {s0 : Source}
+    (h : st.sources.elems[i]? = some s0) :
+    (result total st rs).sources.elems[i]? =
+      some (addP s0 (Spec.placesOf (rs.map (mkStack st.srcs)) i)) := by
+  simp [result, Slice.lit, List.getElem?_mapIdx, h]
 
 end PV.Stacks
